@@ -3,6 +3,7 @@ package sim
 import (
 	"fmt"
 	"math/rand"
+	"strings"
 	"time"
 
 	corev1 "k8s.io/api/core/v1"
@@ -256,7 +257,7 @@ func (e *Sim) Run(ctx *core.Ctx, idx int) {
 		w.overridesSetup(r, "ns1", "foo")
 	}
 	if e.P.MultiEDS {
-		switch r.Intn(3) {
+		switch r.Intn(4) {
 		case 0:
 			mk("ns2", "foo")
 		case 1:
@@ -264,6 +265,12 @@ func (e *Sim) Run(ctx *core.Ctx, idx int) {
 		case 2:
 			mk("ns2", "foo")
 			mk("ns1", "bar")
+		case 3:
+			// two ExtendedDaemonSets of one namespace whose (valid, <= 253 characters) names only differ
+			// after the 63rd character: anything that shortens a name to fit a label value confuses them
+			long := strings.Repeat("agent-with-a-very-long-name-", 3)[:63]
+			mk("ns1", long+"-a")
+			mk("ns1", long+"-b")
 		}
 		// unrelated pods and a DaemonSet with overlapping labels
 		up := &corev1.Pod{ObjectMeta: metav1.ObjectMeta{Namespace: "ns3", Name: "unrelated-1", Labels: map[string]string{v1.ExtendedDaemonSetNameLabelKey: "foo", kit.MarkerLabel: "unrelated"}}, Spec: corev1.PodSpec{NodeName: "n0", Containers: []corev1.Container{{Name: "main", Image: "x"}}}}
